@@ -1099,6 +1099,11 @@ pub fn list_run(run: u64, seed: u64, c14: bool) -> RunOut {
         if call_done {
             list.done();
         }
+        // the handle may go away right after done(): everything pushed and the Done marker must still arrive
+        let mut list = Some(list);
+        if call_done && rng.chance(50) {
+            list = None;
+        }
         settle().await;
         let mut bad: Vec<(String, String)> = Vec::new();
         for (join, got) in &readers {
@@ -1132,11 +1137,13 @@ pub fn list_run(run: u64, seed: u64, c14: bool) -> RunOut {
                 None => bad.push((format!("{prop}:list:mirror-borrow-pending"), "borrow pending at quiescence".into())),
             }
         }
-        let own = list.borrow().await;
-        if *own != pushed {
-            bad.push((format!("{prop}:list:own-contents"), "ObservableList::borrow differs from what was pushed".into()));
+        if let Some(list) = &list {
+            let own = list.borrow().await;
+            if *own != pushed {
+                bad.push((format!("{prop}:list:own-contents"), "ObservableList::borrow differs from what was pushed".into()));
+            }
+            drop(own);
         }
-        drop(own);
         for (sig, d) in bad.into_iter().take(2) {
             out.viol(sig, d, json!({"run": run, "seed": seed, "collection": "list", "pushes": n_ops, "joins": joins, "remote": remote, "done": call_done}));
         }
